@@ -18,7 +18,7 @@ RULE = ("A: ALL (version, length) pairs in 0..17 x 0..42 (774, exhaustive) x HRP
         "<= 4 decided offline by set intersections (2 388 085 weight-2 syndromes); D: random <=4-symbol substitutions and an "
         "insert/delete/case/charset grammar through the real decoder, differential against the reference decoder; distinct = "
         "distinct (monitor, case) digests"
-        " EXTENSIONS: + foreign printable characters at every position (B3), characters outside 33..126 affixed / after the separator / before the checksum (B4), prefixes related to the expected one, caller edits of returned lists, full (version x length x constant) grid, foreign character x compensating neighbour grid (B5)")
+        " EXTENSIONS: + foreign printable characters at every position (B3), characters outside 33..126 affixed / after the separator / before the checksum (B4), prefixes related to the expected one, caller edits of returned lists, full (version x length x constant) grid, foreign character x compensating neighbour grid (B5), addresses without a cased character (letter-free prefix, digit-only symbols), request histories")
 LEVEL_TEXT = ("Codec agreement is exhaustive over (version, length); rejection clauses are exercised by construction; the "
               "error-detection clause is decided for EVERY error pattern of weight <= 4 (both constants and the cross-constant "
               "case) from syndromes computed by the real bech32_polymod, exhaustive given the checksum's affine-linearity, which "
@@ -418,6 +418,30 @@ def judge_foreign_pairs(ctx, case):
                      cls="diff|foreign-pair-grid|%s" % ("upper" if case["upper"] else "lower"), mech="C11.D.decoder_disagrees.accepted")
 
 
+def uncased_cases(rnd, ctx, per_prefix=2, tries=12000):
+    """(hrp, version, program) whose encoding holds no cased character at all (digits and punctuation only)."""
+    digit_vals = [i for i, ch in enumerate(rbech.CHARSET) if ch.isdigit()]
+    vers = [v for v in digit_vals if v <= 16]
+    out = []
+    prefixes = ["?", "1", "2", "21", "~!", "1234567", "+-", "0"]
+    for pi, hrp in enumerate(prefixes):
+        if not ctx.mine(pi):
+            continue
+        found = 0
+        for _ in range(tries):
+            v = rnd.choice(vers)
+            groups = [rnd.choice(digit_vals) for _ in range(rnd.choice([8, 16, 32, 64]))]     # (5 bits x 8k: no padding)
+            prog = bytes(rbech.from5(groups))
+            s_ = rbech.segwit_encode(hrp, v, prog)
+            if s_ is not None and not any(ch.isalpha() for ch in s_):
+                out.append((hrp, v, prog))
+                found += 1
+                if found >= per_prefix:
+                    break
+    ctx.extra["uncased_addresses_found"] = ctx.extra.get("uncased_addresses_found", 0) + len(out)
+    return out
+
+
 def gen_valid(rnd):
     hrp = rnd.choice(["bc", "tb"])
     v = rnd.choice([0, 0, 0, 1, 1, 2, 16])
@@ -493,6 +517,12 @@ def run(ctx):
         v = rnd.randrange(0, 18)
         judge_A(ctx, {"hrp": rand_hrp(rnd), "witver": v, "prog": gen.rbytes(rnd, rnd.randrange(0, 43)), "aslist": rnd.random() < 0.5,
                       "hostile": rnd.randrange(1, 1 << 30) if rnd.random() < 0.3 else 0})
+    # ---- A': strings without a single cased character - a letter-free prefix ('?', '1', '21', '~!' ...), a witness version
+    #          whose symbol is a digit (5, 7, 10, 15) and a program whose groups AND checksum are all digit symbols (searched
+    #          for: one candidate in about 2000) - and their all-letters counterparts; "not mixed case" must not become "has case"
+    for ui, (uhrp, uv, uprog) in enumerate(uncased_cases(rnd, ctx)):
+        judge_A(ctx, {"hrp": uhrp, "witver": uv, "prog": uprog, "aslist": bool(ui & 1), "hostile": 0, "tag": "uncased"})
+        judge_D_diff(ctx, {"hrp": uhrp, "s": rbech.segwit_encode(uhrp, uv, uprog), "tag": "uncased"})
     # ---- B
     for j in range(ctx.scale(480, 60000)):
         kind = B_KINDS[j % len(B_KINDS)]
